@@ -123,6 +123,69 @@ class T:
         return "T(" + (s if len(s) < 200 else s[:200] + "...") + ")"
 
 
+class W:
+    """A caller-defined element type: an immutable wrapper around a complex matrix whose own multiplication is a
+    user callback (it reports to `W.hook`, which may inject a fault)."""
+
+    __slots__ = ("a",)
+    __array_ufunc__ = None
+    hook = None
+
+    def __init__(self, a):
+        self.a = np.array(a, dtype=complex)
+        self.a.setflags(write=False)
+
+    @property
+    def shape(self):
+        return self.a.shape
+
+    @staticmethod
+    def _raw(o):
+        return o.a if isinstance(o, W) else o
+
+    def __matmul__(self, o):
+        if W.hook is not None:
+            W.hook()
+        return W(self.a @ W._raw(o))
+
+    def __rmatmul__(self, o):
+        if W.hook is not None:
+            W.hook()
+        return W(W._raw(o) @ self.a)
+
+    def __add__(self, o):
+        return W(self.a + o.a) if isinstance(o, W) else NotImplemented
+
+    def __sub__(self, o):
+        return W(self.a - o.a) if isinstance(o, W) else NotImplemented
+
+    def __neg__(self):
+        return W(-self.a)
+
+    def __mul__(self, o):
+        return W(self.a * o) if isinstance(o, (int, float, complex)) else NotImplemented
+
+    __rmul__ = __mul__
+
+    def __truediv__(self, o):
+        return W(self.a / o) if isinstance(o, (int, float, complex)) else NotImplemented
+
+    def adjoint(self):
+        return W(self.a.conj().T)
+
+    def __eq__(self, o):
+        if isinstance(o, W):
+            return self.a.shape == o.a.shape and bool(np.all(self.a == o.a))
+        if isinstance(o, (int, float, complex)):
+            return bool(np.all(self.a == o))
+        return NotImplemented
+
+    __hash__ = None
+
+    def __repr__(self):
+        return "W(" + repr(self.a).replace("\n", " ") + ")"
+
+
 # ---------------------------------------------------------------------------------------
 # canonical forms
 
@@ -142,6 +205,8 @@ def norm(v):
         return ("one",)
     if isinstance(v, T):
         return ("T", v.key())
+    if isinstance(v, W):
+        return ("arr", v.a)
     if isinstance(v, np.ma.MaskedArray):
         data = v.filled(zero) if v.dtype == object else v.filled(0)
         if v.dtype == object:
